@@ -17,7 +17,7 @@ def _hists(r):
     return [json.loads(t[1]) for t in core.tuples(r["out"], "HIST")]
 
 
-def _run_hist_parallel(chk, w, name, hists, tag, pack_every):
+def _run_hist_parallel(chk, w, name, hists, tag, pack_every, profile="release"):
     """replays histories with several driver processes (each realises its slice with its own seeded stream)"""
     k = min(8, len(hists) // 200 + 1)      # independent of VERIF_JOBS: case names and seeds must replay
     parts = [hists[i::k] for i in range(k)]
@@ -28,10 +28,10 @@ def _run_hist_parallel(chk, w, name, hists, tag, pack_every):
         op = os.path.join(w, "%s.trace.%d.ndjson" % (name, i))
         core.write_ndjson(hp, parts[i])
         core.run_driver(["c11", "--mode", "hist", "--seed", chk.seed * 1000 + i, "--tag", "%s%d" % (tag, i), "--hists", hp,
-                         "--pack-every", pack_every], op, timeout=3000)
+                         "--pack-every", pack_every], op, timeout=3000, profile=profile)
         return op
 
-    core.build_harness()
+    core.build_harness(profile)
     with cf.ThreadPoolExecutor(max_workers=max(1, min(k, core.NCPU))) as ex:
         outs = list(ex.map(one, range(k)))
     evs = []
@@ -75,13 +75,21 @@ def run(chk, replay=None):
         if core.NCPU >= 12 or os.environ.get("VERIF_C11_FULL5"):
             mc_cfgs.append("MC_RelStore_3_5.cfg")
     mcw = max(2, core.NCPU // (2 * len(mc_cfgs))) if core.NCPU < 12 else max(2, (core.NCPU - 4) // len(mc_cfgs))
-    mc_jobs = [pool.submit(core.model_check, "relstore/RelStore.tla", c, mcw, 7200) for c in mc_cfgs]
-    mc_jobs.append(pool.submit(core.model_check, "relstore/Pack.tla", "MC_Pack_3.cfg", 2, 1800))
+    mc_jobs = []
+    if not replay:      # a replay only re-validates the recorded case
+        mc_jobs = [pool.submit(core.model_check, "relstore/RelStore.tla", c, mcw, 7200) for c in mc_cfgs]
+        mc_jobs.append(pool.submit(core.model_check, "relstore/Pack.tla", "MC_Pack_3.cfg", 2, 1800))
 
     # (G) histories printed by the model
     r = core.model_check("relstore/RelStore.tla", "Gen_RelStore_3.cfg", workers=min(4, core.NCPU), timeout=900)
     chk.add_mc(r)
     hs = _hists(r)
+    hs4 = []
+    if thorough:
+        # every third history of length 4 (which third depends on the seed)
+        r = core.model_check("relstore/RelStore.tla", "Gen_RelStore_4.cfg", workers=min(4, core.NCPU), timeout=1800)
+        chk.add_mc(r)
+        hs4 = [h for i, h in enumerate(_hists(r)) if (i + chk.seed) % 3 == 0]
     sims = []
     for cfg, num, depth in ([("Sim_RelStore_6.cfg", 400 if thorough else 120, 17)] +
                             ([("Sim_RelStore_8.cfg", 150, 31)] if thorough else [("Sim_RelStore_8.cfg", 25, 31)])):
@@ -92,14 +100,14 @@ def run(chk, replay=None):
     if not hs or not sims:
         raise core.ToolError("no histories generated")
     br = collections.Counter()
-    for h in hs + sims:
+    for h in hs + hs4 + sims:
         for b in h["br"]:
             br[b] += 1
     missing = BRANCHES - set(br)
     if missing:
         raise core.ToolError("branches of the store model never taken by the generated histories: %s" % sorted(missing))
     chk.cov["model_branches_in_replayed_histories"] = dict(br)
-    chk.cov["histories"] = {"exhaustive_len3_plus_rare_len4": len(hs), "simulated": len(sims)}
+    chk.cov["histories"] = {"exhaustive_len3_plus_rare_len4": len(hs), "third_of_len4": len(hs4), "simulated": len(sims)}
 
     # (I) shapes for the packed form
     shapes = os.path.join(w, "packshapes.ndjson")
@@ -111,6 +119,10 @@ def run(chk, replay=None):
     traces = []
     traces.append(("hist", _run_hist_parallel(chk, w, "hist", hs, "h", 4), "case"))
     traces.append(("sim", _run_hist_parallel(chk, w, "sim", sims, "s", 2), "case"))
+    if thorough:
+        traces.append(("hist4", _run_hist_parallel(chk, w, "hist4", hs4, "g", 16), "case"))
+        # the same with debug assertions and overflow checks compiled in (the profile of the repository's tests)
+        traces.append(("sim-relcheck", _run_hist_parallel(chk, w, "simrc", sims, "r", 2, profile="relcheck"), "case"))
     pk = os.path.join(w, "pack.trace.ndjson")
     core.run_driver(["c11", "--mode", "pack", "--seed", chk.seed, "--shapes", shapes, "--reps", 2 if thorough else 1], pk)
     traces.append(("pack", pk, None))
@@ -134,10 +146,11 @@ def run(chk, replay=None):
         chk.add_mc(j.result())
     pool.shutdown()
     # (M) last link of the final step, and its excluded corner a = b = 0 (documented hazard, informational)
-    chk.add_mc(core.model_check("relstore/TryFactor.tla", "MC_TryFactor.cfg", workers=1, timeout=600))
-    r = core.model_check("relstore/TryFactor.tla", "MC_TryFactor_zero.cfg", workers=1, timeout=600, expect_error=True)
-    chk.add_mc(r, invariants_expected_to_hold=False)
-    chk.notes.append({"model": "MC_TryFactor_zero.cfg", "try_factor_asserts_on_a_b_zero": "ZeroZero" in r["violated"]})
+    if not replay:
+        chk.add_mc(core.model_check("relstore/TryFactor.tla", "MC_TryFactor.cfg", workers=1, timeout=600))
+        r = core.model_check("relstore/TryFactor.tla", "MC_TryFactor_zero.cfg", workers=1, timeout=600, expect_error=True)
+        chk.add_mc(r, invariants_expected_to_hold=False)
+        chk.notes.append({"model": "MC_TryFactor_zero.cfg", "try_factor_asserts_on_a_b_zero": "ZeroZero" in r["violated"]})
 
     # bookkeeping
     def key(e):
